@@ -259,11 +259,11 @@ func (c *Check) End() {
 	}
 	c.ended = true
 	cov := map[string]any{}
-	for k, v := range c.cov {
-		cov[k] = v
-	}
 	for k, v := range c.counters {
 		cov[k] = v.Load()
+	}
+	for k, v := range c.cov { // explicit Set wins over a counter of the same name
+		cov[k] = v
 	}
 	for k, v := range c.distinct {
 		cov["distinct_"+k] = len(v)
